@@ -71,6 +71,9 @@ type Grant struct {
 	LatestA *Tok   // latest token-endpoint access token
 	Killed  string
 	IDToks  []string
+	// what the authorization request asked for, as fosite parsed it at consent time (nil for token-endpoint origins)
+	ReqScopes, ReqAud []string
+	HasReq            bool
 }
 
 func (g *Grant) endpointToks() []*Tok {
@@ -434,13 +437,22 @@ func (s *Sim) Authorize(a AuthzReq) *Grant {
 			}
 		}
 	}
+	var reqScopes, reqAud []string
+	inner := cons.ReqMut
+	cons.ReqMut = func(ar fosite.AuthorizeRequester) {
+		reqScopes = append([]string{}, ar.GetRequestedScopes()...)
+		reqAud = append([]string{}, ar.GetRequestedAudience()...)
+		if inner != nil {
+			inner(ar)
+		}
+	}
 	out := s.W.Authorize(q, cons)
 	if out.Err != nil {
 		s.note("error %s", world.ErrDetail(out.Err))
 		s.R.Count("authorize_err:"+out.ErrName, 1)
 		return nil
 	}
-	g := &Grant{ID: len(s.Grants), Origin: "code", RT: a.RT, Client: a.Client, Subject: sub, Scopes: gs, Aud: ga}
+	g := &Grant{ID: len(s.Grants), Origin: "code", RT: a.RT, Client: a.Client, Subject: sub, Scopes: gs, Aud: ga, ReqScopes: reqScopes, ReqAud: reqAud, HasReq: reqScopes != nil}
 	if strings.Contains(a.RT, " ") {
 		g.Origin = "hybrid"
 	} else if a.RT != "code" {
@@ -523,10 +535,14 @@ func (s *Sim) Redeem(g *Grant, o RedeemOpts) *world.Out {
 	}
 	s.W.Store.ResetCalls()
 	s.W.Store.Record = true
-	out := s.W.Token(form, au)
+	var capt reqCapture
+	out := s.W.Token(form, au, capt.mut())
 	s.W.Store.Record = false
 	calls := s.W.Store.TakeCalls()
 	ok := out.Err == nil && out.S("access_token") != ""
+	if ok {
+		s.checkRequested(g, &capt, "authorization_code")
+	}
 	if o.Equivalent && !c.Used && !foreign {
 		s.note("equivalent redirect_uri presentation: ok=%v %s", ok, out.ErrName)
 		s.R.Unspecified("equivalent-but-not-identical-redirect-uri")
@@ -620,8 +636,12 @@ func (s *Sim) Refresh(t *Tok, as string, extra url.Values) *world.Out {
 		state = "unspec"
 	}
 	s.log("refresh %s as=%s state=%s latest=%v", t.Name(), as, state, t == g.Latest)
-	out := s.W.Token(form, s.auth(as))
+	var capt reqCapture
+	out := s.W.Token(form, s.auth(as), capt.mut())
 	ok := out.Err == nil && out.S("access_token") != ""
+	if ok {
+		s.checkRequested(g, &capt, "refresh_token")
+	}
 	s.note("%s", map[bool]string{true: "tokens", false: "refused " + world.ErrDetail(out.Err)}[ok])
 	s.R.Case(fmt.Sprintf("refresh origin=%s state=%s foreign=%v ok=%v err=%s", g.Origin, state, foreign, ok, out.ErrName))
 	switch {
@@ -927,4 +947,49 @@ func (g *Grant) LastIDToken() string {
 		return ""
 	}
 	return g.IDToks[len(g.IDToks)-1]
+}
+
+// reqCapture records what the accepted token request carries as REQUESTED scope / audience between the two phases of the
+// token endpoint. For codes and refresh tokens these are those of the authorization request: no token-request parameter can
+// add to or change them.
+type reqCapture struct {
+	seen       bool
+	scopes, au []string
+}
+
+func (r *reqCapture) mut() world.TokenMut {
+	return func(ar fosite.AccessRequester) {
+		r.seen = true
+		r.scopes = append([]string{}, ar.GetRequestedScopes()...)
+		r.au = append([]string{}, ar.GetRequestedAudience()...)
+	}
+}
+
+func sameElems(a, b []string) bool {
+	m := map[string]int{}
+	for _, x := range a {
+		m[x] |= 1
+	}
+	for _, x := range b {
+		m[x] |= 2
+	}
+	for _, v := range m {
+		if v != 3 {
+			return false
+		}
+	}
+	return true
+}
+
+func (s *Sim) checkRequested(g *Grant, r *reqCapture, grant string) {
+	if !r.seen || !g.HasReq {
+		return
+	}
+	s.R.Count("requested_sets_compared", 1)
+	if !sameElems(r.scopes, g.ReqScopes) {
+		s.viol("requested-scope-changed", grant, fmt.Sprintf("the accepted %s request carries requested scopes %v, the authorization request asked for %v", grant, r.scopes, g.ReqScopes))
+	}
+	if !sameElems(r.au, g.ReqAud) {
+		s.viol("requested-audience-changed", grant, fmt.Sprintf("the accepted %s request carries requested audience %v, the authorization request asked for %v", grant, r.au, g.ReqAud))
+	}
 }
